@@ -500,6 +500,11 @@ impl DbInner {
 		let mut commit: CommitChangeSet = Default::default();
 		for (col, change) in tx.into_iter() {
 			if self.options.columns[col as usize].btree_index {
+				if matches!(change, Operation::Reference(..)) &&
+					!self.options.columns[col as usize].ref_counted
+				{
+					return Err(Error::InvalidInput(format!("No Rc for column {col}")))
+				}
 				commit
 					.btree_indexed
 					.entry(col)
@@ -2181,7 +2186,13 @@ impl IndexedChangeSet {
 		self.push_change_hashed(match change {
 			Operation::Set(k, v) => Operation::Set(hash_key(k.as_ref()), v.into()),
 			Operation::Dereference(k) => Operation::Dereference(hash_key(k.as_ref())),
-			Operation::Reference(k) => Operation::Reference(hash_key(k.as_ref())),
+			Operation::Reference(k) => {
+				// Refuse here: `copy_to_overlay` runs after earlier operations have been published.
+				if !options.columns[self.col as usize].ref_counted {
+					return Err(Error::InvalidInput(format!("No Rc for column {}", self.col)))
+				}
+				Operation::Reference(hash_key(k.as_ref()))
+			},
 			Operation::InsertTree(..) |
 			Operation::ReferenceTree(..) |
 			Operation::DereferenceTree(..) =>
